@@ -8,10 +8,10 @@ package main
 import (
 	"bytes"
 	"context"
-	"net/http"
-	"regexp"
 	"fmt"
 	"math/rand"
+	"net/http"
+	"regexp"
 	"strings"
 	"sync"
 	"time"
